@@ -2,7 +2,7 @@
 (* C07: recorded substructure searches against the declarative set of embeddings.
    record: [p, t (pattern / target as in Match), scope (sequence of target positions or <<>> = everything), filter (0/1),
             maps (sequence of mappings: sequence pattern position -> target position), sub / lt / le / eq (0/1: is_substructure,
-            p < t, p <= t, is_equal; 9 = not recorded)] *)
+            p < t, p <= t, is_equal; 9 = not recorded), exc (optional: the exception class when the search raised)] *)
 EXTENDS Match, Json
 CONSTANT CH
 R == JsonDeserialize("data.json")
@@ -15,7 +15,8 @@ Verdict(r) ==
       E == Embeddings(r.p, r.t, scope)
       obs == { r.maps[k] : k \in 1..Len(r.maps) }
       images(S) == { RangeOf(f) : f \in S }
-  IN If(~(obs \subseteq E), "returned-a-map-that-is-not-an-embedding")
+  IN If("exc" \in DOMAIN r /\ r.exc # "", "search-raised:" \o (IF "exc" \in DOMAIN r THEN r.exc ELSE ""))
+     \cup If(~(obs \subseteq E), "returned-a-map-that-is-not-an-embedding")
      \cup If(Cardinality(obs) # Len(r.maps), "duplicate-mapping")
      \cup (IF r.filter = 0 THEN If(~(E \subseteq obs), "embedding-missed")
            ELSE If(images(obs) # images(E), "image-set-missed-or-invented") \cup If(Cardinality(images(obs)) # Len(r.maps), "filter-kept-two-maps-of-one-image-set"))
